@@ -6,6 +6,7 @@ import Revm.Proofs.EvmLinkHost
 import Revm.Props.C34
 import Revm.Proofs.EvmLinkStatic4
 import Revm.Proofs.EvmLinkGasInv4
+import Revm.Proofs.EvmLinkSame
 /-! C01Link — the whole-transaction model `Revm.Model.Evm.transact` (C01) SATISFIES the component properties.
 
 `Evm.transact` (EvmTx / EvmFrame / EvmLoop / EvmHost) was written independently of the component models that carry the
@@ -395,6 +396,29 @@ theorem transact_beneficiary_gets (fuel : Nat) (w w' : World) (e : Evm.Env) (spe
   have hfa := frameAccounting fuel w e spec
   obtain ⟨w1, accV, code, ig, fg, k, res, w3, hl, hff, hrest⟩ := transact_payments fuel w w' e spec r h hL hfa
   exact ⟨w1, accV, code, hl, fun hW => (hrest hW).2.2.2.2⟩
+
+/-- COROLLARY (C09 `sender_is_beneficiary` on the RESULT of `Evm.transact`): when the sender is the block's
+beneficiary, `reward_beneficiary` loads the very account `reimburse_caller` has just written: the account ends at what
+the execution left on it, plus `(gas_limit · eff + blob_fee) − (eff · gas_used + blob_fee)`, plus
+`(eff − base fee) · gas_used` (both `saturating_add`), and the reward is at most the gas fee paid -/
+theorem transact_sender_is_beneficiary (fuel : Nat) (w w' : World) (e : Evm.Env) (spec : Nat) (r : TxResult)
+    (h : Evm.transact fuel w e spec = .ok (.executed r, w')) (hL : e.tx.gasLimit < U64)
+    (heq : e.tx.caller = e.block.coinbase) :
+    ∃ (w1 : World) (accV : Journal.Acct) (code : List Nat) (ig fg k : Nat) (res : Interp.ChildResult) (w3 : World),
+      loadSender w e.tx.caller = .ok (w1, accV, code) ∧
+      FirstFrameResult fuel w e spec ig fg k res w3 ∧
+      (accV.info.balance < W →
+        tipPrice e spec * r.gasUsed ≤ effPrice e spec * r.gasUsed ∧
+        ∃ (wx : World) (c : Bool) (accX accF : Journal.Acct),
+          w3.loadAccount e.tx.caller = .ok (wx, c) ∧ wx.acct e.tx.caller = .ok accX ∧
+          w'.js.state e.tx.caller = some accF ∧
+          accF.info.balance = U256.saturatingAdd (U256.saturatingAdd accX.info.balance
+            (e.tx.gasLimit * effPrice e spec + blobFeeOf e spec - (effPrice e spec * r.gasUsed + blobFeeOf e spec)))
+            (tipPrice e spec * r.gasUsed)) :=
+  Proofs.EvmLink.transact_sender_is_beneficiary fuel w w' e spec r h hL heq
+
+example : ({ sampleEnv with block := { sampleEnv.block with coinbase := 0xaa } } : Evm.Env).tx.caller =
+    ({ sampleEnv with block := { sampleEnv.block with coinbase := 0xaa } } : Evm.Env).block.coinbase := rfl
 
 example : (10 : Nat)^18 < W := by rw [W_val]; decide
 
